@@ -26,7 +26,61 @@ func rvGet(v value) (iface, bool) {
 	if !ok || f.t == nil {
 		return iface{}, false
 	}
+	if len(s) > 1 {
+		if p, isP := s[1].(*value); isP && p != nil {
+			// addressable: read through the address, as reflect does
+			f.v = load(f.t, p)
+		}
+	}
 	return f, true
+}
+
+// mkRVAddr makes an addressable reflect.Value of type t living in cell p.
+func mkRVAddr(t types.Type, p *value) value {
+	return structure{iface{t, nil}, p, uintptr(3)}
+}
+
+func rvAddr(v value) *value {
+	s, ok := v.(structure)
+	if !ok || len(s) < 2 {
+		return nil
+	}
+	p, _ := s[1].(*value)
+	return p
+}
+
+var ptrTypes = map[types.Type]*types.Pointer{}
+
+func ptrTo(t types.Type) types.Type {
+	if p, ok := ptrTypes[t]; ok {
+		return p
+	}
+	p := types.NewPointer(t)
+	ptrTypes[t] = p
+	return p
+}
+
+func rtypeOf(v value) (types.Type, bool) {
+	i, ok := v.(iface)
+	if !ok {
+		return nil, false
+	}
+	rt, ok := i.v.(rtype)
+	return rt.t, ok
+}
+
+func numMethods(t types.Type) int {
+	if it, ok := t.Underlying().(*types.Interface); ok {
+		return it.NumMethods()
+	}
+	ms := types.NewMethodSet(t)
+	n := 0
+	for i := 0; i < ms.Len(); i++ {
+		if ms.At(i).Obj().Exported() {
+			n++
+		}
+	}
+	return n
 }
 
 func rvIsNil(v value) (bool, bool) {
@@ -196,7 +250,7 @@ func init() {
 		if p == nil {
 			return mkRV(nil, nil)
 		}
-		return mkRV(pt.Elem(), load(pt.Elem(), p))
+		return mkRVAddr(pt.Elem(), p)
 	}
 	externals["reflect.Indirect"] = func(fr *frame, args []value) value { return indirect(fr, args[0]) }
 	externals["(reflect.Value).Elem"] = func(fr *frame, args []value) value {
@@ -241,5 +295,104 @@ func init() {
 			}
 		}
 		return mkRV(nil, nil)
+	}
+	externals["(reflect.Value).CanAddr"] = func(fr *frame, args []value) value { return rvAddr(args[0]) != nil }
+	externals["(reflect.Value).CanSet"] = func(fr *frame, args []value) value { return rvAddr(args[0]) != nil }
+	externals["(reflect.Value).Addr"] = func(fr *frame, args []value) value {
+		f, ok := rvGet(args[0])
+		p := rvAddr(args[0])
+		if !ok || p == nil {
+			fr.i.rtPanic("reflect.Value.Addr of unaddressable value")
+		}
+		return mkRV(ptrTo(f.t), p)
+	}
+	setTo := func(fr *frame, dst value, val iface) {
+		f, ok := rvGet(dst)
+		p := rvAddr(dst)
+		if !ok || p == nil {
+			fr.i.rtPanic("reflect: reflect.Value.Set using unaddressable value")
+		}
+		if _, dstIface := f.t.Underlying().(*types.Interface); dstIface {
+			if _, srcIface := val.t.Underlying().(*types.Interface); srcIface {
+				fr.i.store(f.t, p, copyVal(val.v)) // an interface value: its content is already an iface
+			} else {
+				fr.i.store(f.t, p, iface{val.t, copyVal(val.v)})
+			}
+			return
+		}
+		if !types.Identical(f.t, val.t) {
+			fr.i.abort("unsupported", "reflect.Value.Set of %s with %s", typeStr(f.t), typeStr(val.t))
+		}
+		fr.i.store(f.t, p, copyVal(val.v))
+	}
+	externals["(reflect.Value).Set"] = func(fr *frame, args []value) value {
+		x, ok := rvGet(args[1])
+		if !ok {
+			fr.i.rtPanic("reflect: call of reflect.Value.Set on zero Value")
+		}
+		setTo(fr, args[0], x)
+		return nil
+	}
+	externals["(reflect.Value).SetZero"] = func(fr *frame, args []value) value {
+		f, ok := rvGet(args[0])
+		p := rvAddr(args[0])
+		if !ok || p == nil {
+			fr.i.rtPanic("reflect: reflect.Value.SetZero using unaddressable value")
+		}
+		fr.i.store(f.t, p, zero(f.t))
+		return nil
+	}
+	externals["reflect.New"] = func(fr *frame, args []value) value {
+		t, ok := rtypeOf(args[0])
+		if !ok {
+			fr.i.rtPanic("reflect: New(nil)")
+		}
+		var c value = zero(t)
+		return mkRV(ptrTo(t), &c)
+	}
+	externals["reflect.Zero"] = func(fr *frame, args []value) value {
+		t, ok := rtypeOf(args[0])
+		if !ok {
+			fr.i.rtPanic("reflect: Zero(nil)")
+		}
+		return mkRV(t, zero(t))
+	}
+	externals["(reflect.Value).NumMethod"] = func(fr *frame, args []value) value {
+		f, ok := rvGet(args[0])
+		if !ok {
+			fr.i.rtPanic("reflect: call of reflect.Value.NumMethod on zero Value")
+		}
+		return numMethods(f.t)
+	}
+	externals["(reflect.Value).Equal"] = func(fr *frame, args []value) value {
+		a, aok := rvGet(args[0])
+		b, bok := rvGet(args[1])
+		if aok {
+			if _, isI := a.t.Underlying().(*types.Interface); isI {
+				in, _ := a.v.(iface)
+				a, aok = in, in.t != nil
+			}
+		}
+		if bok {
+			if _, isI := b.t.Underlying().(*types.Interface); isI {
+				in, _ := b.v.(iface)
+				b, bok = in, in.t != nil
+			}
+		}
+		if !aok || !bok {
+			return aok == bok
+		}
+		if !types.Identical(a.t, b.t) {
+			return false
+		}
+		switch x := a.v.(type) {
+		case *value:
+			y, _ := b.v.(*value)
+			return x == y
+		case bool, int, int8, int16, int32, int64, uint, uint8, uint16, uint32, uint64, uintptr, string, float32, float64:
+			return a.v == b.v
+		}
+		fr.i.abort("unsupported", "reflect.Value.Equal on %s", typeStr(a.t))
+		return nil
 	}
 }
